@@ -10,7 +10,7 @@ import memserver as ms
 from memserver import Req, Client, CLOCK
 from authlib.oauth2 import OAuth2Error
 
-CLIENTS = [("c1", "s1", "client_secret_basic", "a b c", ["https://c1/cb", "https://c1/cb2", "https://c1/cb3?next=%2Fhome"]), ("c2", "s2", "client_secret_post", "a b", ["https://c2/cb"]),
+CLIENTS = [("c1", "s1", "client_secret_basic", "a b c", ["https://c1/cb", "https://c1/cb2", "https://c1/dir/", "https://c1/cb3?next=%2Fhome"]), ("c2", "s2", "client_secret_post", "a b", ["https://c2/cb"]),
            ("pub", "", "none", "a", ["https://pub/cb"])]
 CFG_CLIENTS = [{"id": c, "uris": u, "scope": sc, "method": m} for c, s, m, sc, u in CLIENTS]
 V43 = "v" * 43
